@@ -3,6 +3,7 @@ package main
 import (
 	"fmt"
 	"sort"
+	"strconv"
 	"strings"
 
 	"github.com/esimov/gogu/queue"
@@ -52,12 +53,12 @@ func c09Dec(in []int64) ([]c09Op, bool) {
 	return ops, !r.bad
 }
 
-// c09Drain empties the result queue, in order, as enc_zss — and then puts the
-// keys back, so that the trie's queue is NOT empty when the next Keys or
-// StartsWith begins: what the next call hands back must be its own result
+// c09Drain empties the result queue, in order, as enc_zss — and then (refill)
+// puts the keys back, so that the trie's queue is NOT empty when the next Keys
+// or StartsWith begins: what the next call hands back must be its own result
 // only (the code clears the queue first; a call that forgot to would show).
-func c09Drain(q trie.Queuer[string]) []int64 {
-	var ks []string
+func c09Drain[K ~string](q trie.Queuer[K], refill bool) []int64 {
+	var ks []K
 	for i := 0; q.Size() > 0 && i < 1<<20; i++ {
 		k, err := q.Dequeue()
 		if err != nil {
@@ -65,23 +66,82 @@ func c09Drain(q trie.Queuer[string]) []int64 {
 		}
 		ks = append(ks, k)
 	}
-	for _, k := range ks {
-		q.Enqueue(k)
+	if refill {
+		for _, k := range ks {
+			q.Enqueue(k)
+		}
 	}
 	w := &W{}
 	w.Int(len(ks))
 	for _, k := range ks {
-		w.Bytes(k)
+		w.Bytes(string(k))
 	}
 	return w.Out()
 }
 
-func execC09(in []int64) []int64 {
-	ops, ok := c09Dec(in)
-	if !ok {
-		return []int64{-1}
+// ---- type instances (selected by a leading pseudo-record [7 0 i], dropped by C09_Wire.strip_instance)
+//
+//	i = 0 / no record: Trie[string, int] over queue.Queue, drained results put back
+//	i = 16 + bits:     1 V = string (else the struct c09Val)   2 queue.LQueue behind c09LQ (else queue.Queue)
+//	                   4 drained results are NOT put back       8 K = the named type c09Key (else string)
+//
+// Keys are rebuilt from a fresh byte slice for every call, values are produced by
+// strconv at run time: equal keys / values never share a backing array.
+const c09Instance = 7
+
+type c09Key string
+
+type c09Val struct {
+	n int
+	s string
+	b []byte // makes the type non-comparable
+}
+
+// c09LQ adapts queue.LQueue to trie.Queuer: LQueue.Dequeue returns only the item
+// (no error), so — contrary to the comment on trie.Queuer — *queue.LQueue does not
+// implement the interface as it is.  Enqueue, Size and Clear, the methods the trie
+// itself calls, are LQueue's own.
+type c09LQ[K ~string] struct{ q *queue.LQueue[K] }
+
+func (a c09LQ[K]) Enqueue(k K) { a.q.Enqueue(k) }
+func (a c09LQ[K]) Dequeue() (K, error) {
+	if a.q.Size() == 0 {
+		var zero K
+		return zero, fmt.Errorf("queue is empty")
 	}
-	t := trie.New[string, int](queue.New[string]())
+	return a.q.Dequeue(), nil
+}
+func (a c09LQ[K]) Size() int { return a.q.Size() }
+func (a c09LQ[K]) Clear()    { a.q.Clear() }
+
+func c09EncStr(v int) string { return strconv.Itoa(v) }
+func c09DecStr(s string) int64 {
+	if s == "" {
+		return 0
+	}
+	v, err := strconv.Atoi(s)
+	if err != nil || strconv.Itoa(v) != s {
+		return -1
+	}
+	return int64(v)
+}
+func c09EncVal(v int) c09Val {
+	s := strconv.Itoa(v)
+	return c09Val{n: v, s: s, b: []byte(s)}
+}
+func c09DecVal(x c09Val) int64 {
+	if x.n == 0 && x.s == "" && x.b == nil {
+		return 0
+	}
+	if x.s != strconv.Itoa(x.n) || string(x.b) != x.s {
+		return -1
+	}
+	return int64(x.n)
+}
+
+func c09Run[K ~string, V any](ops []c09Op, q trie.Queuer[K], enc func(int) V, dec func(V) int64, refill bool) []int64 {
+	key := func(s string) K { return K(append([]byte(nil), s...)) } // a fresh backing array per call
+	t := trie.New[K, V](q)
 	var out []int64
 	for _, o := range ops {
 		var res []int64
@@ -89,27 +149,27 @@ func execC09(in []int64) []int64 {
 		panicked := try(func() {
 			switch o.op {
 			case c09Put:
-				t.Put(o.key, o.val)
+				t.Put(key(o.key), enc(o.val))
 				res = []int64{0}
 			case c09Get:
-				v, found := t.Get(o.key)
-				res = []int64{b2i(found), int64(v)}
+				v, found := t.Get(key(o.key))
+				res = []int64{b2i(found), dec(v)}
 			case c09Contains:
-				res = []int64{b2i(t.Contains(o.key))}
+				res = []int64{b2i(t.Contains(key(o.key)))}
 			case c09Size:
 				res = []int64{int64(t.Size())}
 			case c09Keys:
 				q, err := t.Keys()
-				res = append([]int64{b2i(err != nil)}, c09Drain(q)...)
+				res = append([]int64{b2i(err != nil)}, c09Drain(q, refill)...)
 			case c09StartsWith:
-				q, err := t.StartsWith(o.key)
-				res = append([]int64{b2i(err != nil)}, c09Drain(q)...)
+				q, err := t.StartsWith(key(o.key))
+				res = append([]int64{b2i(err != nil)}, c09Drain(q, refill)...)
 			case c09LongestPrefix:
-				p, err := t.LongestPrefix(o.key)
+				p, err := t.LongestPrefix(key(o.key))
 				if err != nil {
 					res = resErr(1)
 				} else {
-					res = (&W{}).Int(0).Bytes(p).Out()
+					res = (&W{}).Int(0).Bytes(string(p)).Out()
 				}
 			default:
 				res = []int64{-1}
@@ -123,11 +183,47 @@ func execC09(in []int64) []int64 {
 	if try(func() {
 		out = append(out, int64(t.Size()))
 		q, _ := t.Keys()
-		out = append(out, c09Drain(q)...)
+		out = append(out, c09Drain(q, refill)...)
 	}) {
 		out = append(out, resPanic()...)
 	}
 	return out
+}
+
+func c09RunQ[K ~string](ops []c09Op, inst int) []int64 {
+	var q trie.Queuer[K] = queue.New[K]()
+	if inst&2 != 0 {
+		q = c09LQ[K]{queue.NewLinked(K("seed element of NewLinked"))}
+	}
+	refill := inst&4 == 0
+	if inst&1 != 0 {
+		return c09Run[K, string](ops, q, c09EncStr, c09DecStr, refill)
+	}
+	return c09Run[K, c09Val](ops, q, c09EncVal, c09DecVal, refill)
+}
+
+func execC09(in []int64) []int64 {
+	ops, ok := c09Dec(in)
+	if !ok {
+		return []int64{-1}
+	}
+	inst := 0
+	if len(ops) > 0 && ops[0].op == c09Instance {
+		if ops[0].key != "" {
+			return []int64{-1}
+		}
+		inst, ops = ops[0].val, ops[1:]
+	}
+	switch {
+	case inst == 0:
+		return c09Run[string, int](ops, queue.New[string](), func(v int) int { return v }, func(v int) int64 { return int64(v) }, true)
+	case inst < 16 || inst >= 32:
+		return []int64{-1}
+	case inst&8 != 0:
+		return c09RunQ[c09Key](ops, inst)
+	default:
+		return c09RunQ[string](ops, inst)
+	}
 }
 
 func describeC09(in []int64) string {
@@ -137,7 +233,26 @@ func describeC09(in []int64) string {
 	}
 	names := []string{"Put", "Get", "Contains", "Size", "Keys", "StartsWith", "LongestPrefix"}
 	var sb strings.Builder
-	sb.WriteString("New()")
+	if len(ops) > 0 && ops[0].op == c09Instance {
+		i := ops[0].val
+		ops = ops[1:]
+		k, v, q, r := "string", "struct", "queue.Queue", ""
+		if i&8 != 0 {
+			k = "Key(named string)"
+		}
+		if i&1 != 0 {
+			v = "string"
+		}
+		if i&2 != 0 {
+			q = "queue.LQueue"
+		}
+		if i&4 != 0 {
+			r = ", results not put back"
+		}
+		fmt.Fprintf(&sb, "New[%s,%s](%s%s)", k, v, q, r)
+	} else {
+		sb.WriteString("New()")
+	}
 	short := func(k string) string {
 		if len(k) <= 40 {
 			return fmt.Sprintf("%q", k)
@@ -358,13 +473,13 @@ func genC09(g *Gen) {
 	}
 	// --- exhaustive small scope
 	if g.Quick() {
-		family("ab", 3, 3, 4, 4)           // keys 1..3 over {a,b}: all sequences <= 3, multisets of 4; queries <= 4
-		family("a\xc3\xa9", 2, 3, 3, 3)    // keys 1..2 over {a,0xC3,0xA9}: all sequences <= 3; queries <= 3
+		family("ab", 3, 3, 4, 4)        // keys 1..3 over {a,b}: all sequences <= 3, multisets of 4; queries <= 4
+		family("a\xc3\xa9", 2, 3, 3, 3) // keys 1..2 over {a,0xC3,0xA9}: all sequences <= 3; queries <= 3
 	} else {
-		family("ab", 4, 3, 5, 4)           // keys 1..4 over {a,b}: all sequences <= 3, multisets of 4 and 5
-		family("ab\xc3", 3, 3, 3, 3)       // keys 1..3 over {a,b,0xC3}: all sequences <= 3; queries <= 3
-		family("ab\xc3", 2, 3, 5, 4)       // keys 1..2 over {a,b,0xC3}: multisets of 4 and 5; queries <= 4
-		family("a\xc3\xa9", 2, 4, 4, 3)    // keys 1..2 over {a,0xC3,0xA9}: all sequences <= 4
+		family("ab", 4, 3, 5, 4)        // keys 1..4 over {a,b}: all sequences <= 3, multisets of 4 and 5
+		family("ab\xc3", 3, 3, 3, 3)    // keys 1..3 over {a,b,0xC3}: all sequences <= 3; queries <= 3
+		family("ab\xc3", 2, 3, 5, 4)    // keys 1..2 over {a,b,0xC3}: multisets of 4 and 5; queries <= 4
+		family("a\xc3\xa9", 2, 4, 4, 3) // keys 1..2 over {a,0xC3,0xA9}: all sequences <= 4
 	}
 	// --- exhaustive, interleaved: every sequence of <= 3 (thorough 4) operations
 	// over Put k / Get k / StartsWith k / LongestPrefix k (k one of the six keys
@@ -403,70 +518,8 @@ func genC09(g *Gen) {
 
 	// --- seeded random: key sets grown by extending / truncating / mutating
 	// earlier keys (shared prefixes, nested keys), bytes >= 0x80, interleaved queries
-	alpha := []byte{'a', 'b', 'c', 0x00, 0x7f, 0x80, 0xa9, 0xc3, 0xff}
-	nr := g.Pick(1500, 20000)
-	for it := 0; it < nr; it++ {
-		na := 2 + g.Rng.Intn(len(alpha)-1)
-		al := make([]byte, na)
-		for i, p := range g.Rng.Perm(len(alpha))[:na] {
-			al[i] = alpha[p]
-		}
-		var pool []string
-		newKey := func() string {
-			if len(pool) == 0 || g.Rng.Intn(5) == 0 {
-				n := 1 + g.Rng.Intn(4)
-				b := make([]byte, n)
-				for i := range b {
-					b[i] = al[g.Rng.Intn(na)]
-				}
-				return string(b)
-			}
-			k := pool[g.Rng.Intn(len(pool))]
-			switch g.Rng.Intn(4) {
-			case 0: // extend
-				return k + string([]byte{al[g.Rng.Intn(na)]})
-			case 1: // truncate
-				if len(k) > 1 {
-					return k[:1+g.Rng.Intn(len(k)-1)]
-				}
-				return k + string([]byte{al[g.Rng.Intn(na)]})
-			case 2: // mutate the last byte
-				return k[:len(k)-1] + string([]byte{al[g.Rng.Intn(na)]})
-			default: // the same key again
-				return k
-			}
-		}
-		var ops []c09Op
-		nops := 10 + g.Rng.Intn(50)
-		for i := 0; i < nops; i++ {
-			switch x := g.Rng.Intn(100); {
-			case x < 40:
-				k := newKey()
-				pool = append(pool, k)
-				ops = append(ops, c09Op{c09Put, k, g.Rng.Intn(1000)})
-			case x < 55:
-				ops = append(ops, c09Op{c09Get, newKey(), 0})
-			case x < 65:
-				ops = append(ops, c09Op{c09Contains, newKey(), 0})
-			case x < 70:
-				ops = append(ops, c09Op{c09Size, "", 0})
-			case x < 75:
-				ops = append(ops, c09Op{c09Keys, "", 0})
-			case x < 88:
-				p := newKey()
-				if g.Rng.Intn(2) == 0 && len(p) > 1 {
-					p = p[:1+g.Rng.Intn(len(p)-1)]
-				}
-				ops = append(ops, c09Op{c09StartsWith, p, 0})
-			default:
-				q := newKey()
-				for j := g.Rng.Intn(3); j > 0; j-- {
-					q += string([]byte{al[g.Rng.Intn(na)]})
-				}
-				ops = append(ops, c09Op{c09LongestPrefix, q, 0})
-			}
-		}
-		emit("random", ops)
+	for it, nr := 0, g.Pick(1500, 20000); it < nr; it++ {
+		emit("random", c09RandomOps(g))
 	}
 
 	// --- large: hundreds of keys, long keys, long shared prefixes, prefix chains
@@ -474,6 +527,9 @@ func genC09(g *Gen) {
 
 	// --- extreme: every byte value 0x00..0xFF, at the first and at the last position
 	c09Extreme(g, emit)
+
+	// --- instances: the same behaviour at other type instantiations (see execC09)
+	c09Instances(g)
 
 	// --- malformed / boundary: empty trie, empty arguments, byte 0, long keys
 	emit("malformed", nil)
@@ -483,6 +539,73 @@ func genC09(g *Gen) {
 		emit("malformed", c09Suite(puts([]string{"\x00", "\x00\x00", "\xff", "\xff\x00"}), []string{"\x00", "\x00\x00", "\x00\x00\x00", "\xff", "\xff\x00", "\xfe"}, kind))
 		emit("malformed", c09Suite(puts([]string{long, long[:300], long + "a"}), []string{long, long[:299], long[:300], long[:301], long + "a", long + "ab", "a"}, kind))
 	}
+}
+
+// c09RandomOps: one seeded random history (10..60 interleaved operations on a key
+// set grown by extending, truncating, mutating and repeating earlier keys).
+func c09RandomOps(g *Gen) []c09Op {
+	alpha := []byte{'a', 'b', 'c', 0x00, 0x7f, 0x80, 0xa9, 0xc3, 0xff}
+	na := 2 + g.Rng.Intn(len(alpha)-1)
+	al := make([]byte, na)
+	for i, p := range g.Rng.Perm(len(alpha))[:na] {
+		al[i] = alpha[p]
+	}
+	var pool []string
+	newKey := func() string {
+		if len(pool) == 0 || g.Rng.Intn(5) == 0 {
+			n := 1 + g.Rng.Intn(4)
+			b := make([]byte, n)
+			for i := range b {
+				b[i] = al[g.Rng.Intn(na)]
+			}
+			return string(b)
+		}
+		k := pool[g.Rng.Intn(len(pool))]
+		switch g.Rng.Intn(4) {
+		case 0: // extend
+			return k + string([]byte{al[g.Rng.Intn(na)]})
+		case 1: // truncate
+			if len(k) > 1 {
+				return k[:1+g.Rng.Intn(len(k)-1)]
+			}
+			return k + string([]byte{al[g.Rng.Intn(na)]})
+		case 2: // mutate the last byte
+			return k[:len(k)-1] + string([]byte{al[g.Rng.Intn(na)]})
+		default: // the same key again
+			return k
+		}
+	}
+	var ops []c09Op
+	nops := 10 + g.Rng.Intn(50)
+	for i := 0; i < nops; i++ {
+		switch x := g.Rng.Intn(100); {
+		case x < 40:
+			k := newKey()
+			pool = append(pool, k)
+			ops = append(ops, c09Op{c09Put, k, g.Rng.Intn(1000)})
+		case x < 55:
+			ops = append(ops, c09Op{c09Get, newKey(), 0})
+		case x < 65:
+			ops = append(ops, c09Op{c09Contains, newKey(), 0})
+		case x < 70:
+			ops = append(ops, c09Op{c09Size, "", 0})
+		case x < 75:
+			ops = append(ops, c09Op{c09Keys, "", 0})
+		case x < 88:
+			p := newKey()
+			if g.Rng.Intn(2) == 0 && len(p) > 1 {
+				p = p[:1+g.Rng.Intn(len(p)-1)]
+			}
+			ops = append(ops, c09Op{c09StartsWith, p, 0})
+		default:
+			q := newKey()
+			for j := g.Rng.Intn(3); j > 0; j-- {
+				q += string([]byte{al[g.Rng.Intn(na)]})
+			}
+			ops = append(ops, c09Op{c09LongestPrefix, q, 0})
+		}
+	}
+	return ops
 }
 
 // c09Orders returns the key set in ascending, descending, middle-out and
@@ -732,7 +855,70 @@ func c09Extreme(g *Gen, emit func(stream string, ops []c09Op)) {
 	}
 }
 
+// c09Instances: all 16 combinations of V (string / non-comparable struct), result
+// queue (queue.Queue / queue.LQueue), drained results put back or not, K (string /
+// named string type).  Per instance: every Put sequence of <= 2 keys of length
+// 1..2 over {a,0xC3} followed by every query of each kind; every sequence of <= 2
+// (thorough 3) interleaved operations; seeded random histories; and for the linked
+// queue a 600-key set whose Keys result is cleared by the next call.
+func c09Instances(g *Gen) {
+	emit := func(inst int, ops []c09Op) {
+		nt := c09Classify(g, ops)
+		g.Count(fmt.Sprintf("instance:K=%s,V=%s,%s,%s",
+			[]string{"string", "named"}[inst>>3&1], []string{"struct", "string"}[inst&1],
+			[]string{"Queue", "LQueue"}[inst>>1&1], []string{"refilled", "left drained"}[inst>>2&1]))
+		g.Case("instances", nt, c09Enc(append([]c09Op{{c09Instance, "", inst}}, ops...)))
+	}
+	pool := c09Strings("a\xc3", 1, 2)
+	np := len(pool)
+	for inst := 16; inst < 32; inst++ {
+		seqsUpTo(np, 2, func(seq []int) {
+			ops := make([]c09Op, len(seq))
+			for i, v := range seq {
+				ops[i] = c09Op{c09Put, pool[v], 10*(i+1) + len(pool[v])}
+			}
+			for _, kind := range c09Kinds {
+				emit(inst, c09Suite(ops, pool, kind))
+			}
+		})
+		seqsUpTo(4*np+2, g.Pick(2, 3), func(seq []int) {
+			ops := make([]c09Op, 0, len(seq)+np)
+			for i, v := range seq {
+				switch {
+				case v < np:
+					ops = append(ops, c09Op{c09Put, pool[v], 10*(i+1) + len(pool[v])})
+				case v < 2*np:
+					ops = append(ops, c09Op{c09Get, pool[v-np], 0})
+				case v < 3*np:
+					ops = append(ops, c09Op{c09StartsWith, pool[v-2*np], 0})
+				case v < 4*np:
+					ops = append(ops, c09Op{c09LongestPrefix, pool[v-3*np] + "a", 0})
+				case v == 4*np:
+					ops = append(ops, c09Op{c09Keys, "", 0})
+				default:
+					ops = append(ops, c09Op{c09Size, "", 0})
+				}
+			}
+			for _, k := range pool {
+				ops = append(ops, c09Op{c09Get, k, 0})
+			}
+			emit(inst, ops)
+		})
+		for it, nr := 0, g.Pick(40, 400); it < nr; it++ {
+			emit(inst, c09RandomOps(g))
+		}
+		if inst&2 != 0 {
+			var keys []string
+			for i := 0; i < 600; i++ {
+				keys = append(keys, "k"+fmt.Sprint(i))
+			}
+			order := c09Orders(g, keys)[3]
+			emit(inst, c09Probe(c09Puts(order), order, []string{"k", "k59", "j"}, []string{"k5990"}, keys[:50]))
+		}
+	}
+}
+
 func init() {
 	register(&Prop{ID: "C09", Exec: execC09, Gen: genC09, Describe: describeC09,
-		Rule: "exhaustive: keys of length 1..3 over {a,b}: every Put sequence (with repetitions) of <= 3 keys and every multiset of 4 keys inserted in ascending, descending and middle-out order; keys of length 1..2 over {a,0xC3,0xA9}: every Put sequence of <= 3 keys (thorough: keys 1..4 over {a,b} with multisets of 4 and 5, keys 1..3 over {a,b,0xC3}, multisets of 5 — those middle-out plus alternately ascending/descending —, sequences of 4); every key sequence is followed, in four separate cases (one per query kind Get, Contains, StartsWith, LongestPrefix), by the empty-argument call and then the call for EVERY string of length 1..4 (resp. 1..3) over the alphabet, Size and Keys; interleaved: every sequence of <= 3 (thorough 4) operations over Put k/Get k/StartsWith k/LongestPrefix kb/Keys/Size, k of length 1..2 over {a,b}, observed per operation, then Get of all six keys. After every Keys/StartsWith the drained keys are put back into the result queue, so the next call must clear it. random: 10..60 interleaved operations on key sets grown by extending, truncating, mutating and repeating earlier keys over a random sub-alphabet of {a,b,c,0x00,0x7f,0x80,0xa9,0xc3,0xff}. large: prefix chains of 12 and 25 nested keys (every fifth link unstored) in 4 insertion orders with LongestPrefix for every length; keys of 63..65, 127..129, 255..257 and 1000 (thorough 4000) bytes with siblings at the last byte; 40 keys under a 300-byte and 200 keys under a 60-byte shared prefix; 600 (thorough 3000) numeral keys with StartsWith returning up to all of them; random dense sets of 150..400 keys. extreme: all 256 one-byte keys; every byte value at the first and at the last position next to 0x00/0xFF/a/0x80, each in ascending, descending, middle-out and random insertion order; random keys over all byte values. non-trivial = the history stores a key together with a proper prefix of it, or asks Get/Contains for an unstored proper prefix of a stored key; distinct = distinct wire input"})
+		Rule: "exhaustive: keys of length 1..3 over {a,b}: every Put sequence (with repetitions) of <= 3 keys and every multiset of 4 keys inserted in ascending, descending and middle-out order; keys of length 1..2 over {a,0xC3,0xA9}: every Put sequence of <= 3 keys (thorough: keys 1..4 over {a,b} with multisets of 4 and 5, keys 1..3 over {a,b,0xC3}, multisets of 5 — those middle-out plus alternately ascending/descending —, sequences of 4); every key sequence is followed, in four separate cases (one per query kind Get, Contains, StartsWith, LongestPrefix), by the empty-argument call and then the call for EVERY string of length 1..4 (resp. 1..3) over the alphabet, Size and Keys; interleaved: every sequence of <= 3 (thorough 4) operations over Put k/Get k/StartsWith k/LongestPrefix kb/Keys/Size, k of length 1..2 over {a,b}, observed per operation, then Get of all six keys. After every Keys/StartsWith the drained keys are put back into the result queue, so the next call must clear it. random: 10..60 interleaved operations on key sets grown by extending, truncating, mutating and repeating earlier keys over a random sub-alphabet of {a,b,c,0x00,0x7f,0x80,0xa9,0xc3,0xff}. large: prefix chains of 12 and 25 nested keys (every fifth link unstored) in 4 insertion orders with LongestPrefix for every length; keys of 63..65, 127..129, 255..257 and 1000 (thorough 4000) bytes with siblings at the last byte; 40 keys under a 300-byte and 200 keys under a 60-byte shared prefix; 600 (thorough 3000) numeral keys with StartsWith returning up to all of them; random dense sets of 150..400 keys. extreme: all 256 one-byte keys; every byte value at the first and at the last position next to 0x00/0xFF/a/0x80, each in ascending, descending, middle-out and random insertion order; random keys over all byte values. instances: the interleaved and per-query-kind families on keys of length 1..2 over {a,0xC3} (Put sequences <= 2, operation sequences <= 2, thorough 3), 40 (400) random histories and a 600-key set, at each of 16 instantiations: V = string or a non-comparable struct, result queue queue.Queue or queue.LQueue, drained results put back or not, K = string or a named string type; keys rebuilt from fresh byte slices and values built by strconv for every call. non-trivial = the history stores a key together with a proper prefix of it, or asks Get/Contains for an unstored proper prefix of a stored key; distinct = distinct wire input"})
 }
